@@ -35,9 +35,16 @@ def rules(ctx, report, facts, config, pfx="C01"):
     report.guard(pfx + ".EXEC", S.pool_inventory, ctx, report, pfx + ".EXEC", facts, config, True)
 
 
-def run(ctx, report):
+def _run_rules(ctx, report):
     for config in ctx.configs:
         rules(ctx, report, ctx.facts(config), config)
     if ctx.tier == "thorough":
         from .. import positives as POS
         POS.engine(ctx, report, "C01.ENGINE")
+
+
+def run(ctx, report):
+    _run_rules(ctx, report)
+    from .. import shared as _S
+    for config in ctx.configs:
+        report.guard("C01.ENCAPSULATED", _S.encapsulated, ctx, report, "C01.ENCAPSULATED", ctx.facts(config), config, "C01")
